@@ -169,6 +169,21 @@ def run_case(case, seed):
                 fails.append(fail("mass_preserved", f"kernel {nm}", **tags))
             if (X.tobytes(), psf.tobytes()) != before:
                 fails.append(fail("input_unchanged", "apply_blur_fft modified an argument", **tags))
+            # exact channel independence: channel a of the result is a function of channel a of the input only - rescaling
+            # another channel by 2^40 (or zeroing it) must leave it bit-identical; the same for the restoration
+            for b_ in range(4):
+                for how in ("scaled", "zeroed"):
+                    X2 = X.copy()
+                    X2[..., b_] = np.ldexp(X2[..., b_], 40) if how == "scaled" else 0.0
+                    ok2, Y2 = call(q.apply_blur_fft, X2, psf)
+                    ok3, R1 = call(q.qslst_restore_fft, X, psf, 0.125)
+                    ok4, R2 = call(q.qslst_restore_fft, X2, psf, 0.125)
+                    evals += 3
+                    others = [a_ for a_ in range(4) if a_ != b_]
+                    if not ok2 or Y2[..., others].tobytes() != Y[..., others].tobytes():
+                        fails.append(fail("channel_independent", f"kernel {nm}: blur of channels {others} changes when channel {b_} is {how}", op="blur", **tags))
+                    if not (ok3 and ok4) or R2[..., others].tobytes() != R1[..., others].tobytes():
+                        fails.append(fail("channel_independent", f"kernel {nm}: restoration of channels {others} changes when channel {b_} is {how}", op="restore", **tags))
         return {"key": case["key"], "fails": fails[:30], "evals": evals, "nontrivial_n": nontriv, "transitions": evals, "traces": evals - len(fails),
                 "path": f"psf_full={kH == H and kW == W},even={kH % 2 == 0 or kW % 2 == 0}", "obs": len(fails)}
     # restoration + builders
